@@ -910,6 +910,18 @@ pub fn run(plan: &Plan, tape: dsim::Tape) -> RunOut {
                     })
                 })
             }),
+            Action::SetFault { kind, permille } => dsim::with(|w| {
+                w.at(at, move || {
+                    dsim::with(|w| {
+                        match kind.as_str() {
+                            "recv_err" => w.cfg.faults.recv_err = permille,
+                            "send_err" => w.cfg.faults.send_err = permille,
+                            _ => {}
+                        }
+                        w.note(format!("fault rate {} = {} permille", kind, permille));
+                    })
+                })
+            }),
             Action::FdExhaustion { on } => dsim::with(|w| {
                 w.at(at, move || {
                     let p = ctx(|c| c.server_procs.last().copied());
